@@ -159,6 +159,7 @@ def pipeline_step(ctx, name, lib, parts, sep, pipe):
     outs = [pipe.add(name, lib, p) for p in parts]
     mix = pipe.add(name, lib, '.'.join(parts))
     P.mixture_oracle(ctx, name, info, parts, outs, mix, Ts, separated=sep)
+    P.sum_oracle(ctx, name, info, '.'.join(parts), mix, Ts)
 
 
 def replay(ctx, rec):
